@@ -1249,7 +1249,12 @@ func (ndb *nodeDB) traverseOrphansWithRootkeyCache(cache *rootkeyCache, prevVers
 		}
 	}
 
-	return nil
+	// a node that could not be fetched ends the loops above early: report it, otherwise the
+	// caller deletes a version after removing only part of its orphans
+	if err := curIter.Error(); err != nil {
+		return err
+	}
+	return prevIter.Error()
 }
 
 // Close the nodeDB.
